@@ -24,6 +24,41 @@ const (
 	c01HotDynAssign  = "dynamic-literal-assign-retypes"
 )
 
+// Construct classes of cold programs (static predicates computed by c01Features):
+const (
+	// a call, lexically inside a `for … range` body, of a function that returns from inside a
+	// range loop of its own (or calls such a function)
+	c01ClsRangeLeak = "return-in-range-called-from-range"
+	// a loop body holds a `:=` that re-declares (hides) a variable of an enclosing scope
+	c01ClsLoopShadow = "shadow-decl-in-loop-body"
+	// a function literal mentions a variable of an enclosing scope that some block re-declares
+	// (the closure must keep meaning the variable it was written under, wherever it is called)
+	c01ClsCloShadow = "closure-variable-shadowed-at-call-site"
+	// <, <=, >, >= between a uint operand and a literal outside the int32 range
+	c01ClsUintWide = "uint-ordered-against-wide-literal"
+	// a return statement inside two (or more) nested `for … range` loops
+	c01ClsNestedRangeRet = "return-inside-nested-range-loops"
+)
+
+// c01Mentions lists the variables an expression / statement tree mentions.
+func c01Mentions(n *c01Node, out map[*c01Var]bool) {
+	if n == nil {
+		return
+	}
+
+	if n.x != nil {
+		out[n.x] = true
+	}
+
+	if n.op == "fnlit" {
+		c01Mentions(n.f.body, out)
+	}
+
+	for _, a := range n.args {
+		c01Mentions(a, out)
+	}
+}
+
 func c01Range(kind string) (lo, hi int64) {
 	switch kind {
 	case "byte":
@@ -90,6 +125,7 @@ type c01Gen struct {
 	noFault  bool
 	useDefer bool
 	callable []*c01Func // top-level non-method functions generated so far
+	cloReads map[*c01Var][]*c01Var // closure variable → the variables its function literal mentions
 	methods  []*c01Func
 	budget   int
 }
@@ -416,11 +452,19 @@ func (g *c01Gen) genBool(s *c01Scope, depth int) *c01Node {
 	a := g.nonConstExpr(s, kind, depth-1)
 	b := g.genInt(s, kind, depth-1)
 
+	if kind == "uint" && g.chance(0.35) {
+		// a uint above MaxInt64 against a literal beyond the int32 range (an int64 constant for Ego)
+		x := g.nonConstInt(s, kind)
+		a = &c01Node{op: "bin", bop: "sub", args: []*c01Node{{op: "bin", bop: "sub", args: []*c01Node{x, x}}, c01Lit(int64(1 + g.pick(9)))}}
+		b = c01Lit([]int64{2147483648, 4294967296, math.MaxInt64 - 1, math.MaxInt64}[g.pick(4)] - int64(g.pick(2)))
+	}
+
 	if g.chance(0.3) {
 		a, b = b, a
 	}
 
-	return &c01Node{op: "bin", bop: ops[g.pick(6)], args: []*c01Node{a, b}}
+	// (kind: the operands' kind — used by the class predicates only)
+	return &c01Node{op: "bin", bop: ops[g.pick(6)], kind: kind, args: []*c01Node{a, b}}
 }
 
 var c01Words = []string{"", "a", "b", "ab", "ba", "abc", "x y", "Zed", "zed", "0", "10", "9", "go", "ego:", "%d", "q~"}
